@@ -29,8 +29,8 @@ RMul(a, b)  == LET g1 == Gcd(Abs(a[1]), b[2])  g2 == Gcd(Abs(b[1]), a[2]) IN    
                Norm((a[1] \div g1) * (b[1] \div g2), (a[2] \div g2) * (b[2] \div g1))
 RInv(a)     == Norm(a[2], a[1])     \* a # 0
 RDiv(a, b)  == RMul(a, RInv(b))
-RLt(a, b)   == a[1] * b[2] < b[1] * a[2]
-RLe(a, b)   == a[1] * b[2] <= b[1] * a[2]
+RLt(a, b)   == RSub(a, b)[1] < 0        \* through the (cross-cancelling) difference: small intermediates
+RLe(a, b)   == RSub(a, b)[1] <= 0
 RAbs(a)     == <<Abs(a[1]), a[2]>>
 RSign(a)    == IF a[1] < 0 THEN -1 ELSE IF a[1] = 0 THEN 0 ELSE 1
 RFloor(a)   == a[1] \div a[2]       \* TLC's \div floors towards minus infinity
